@@ -91,12 +91,17 @@ pub fn run(rec: &mut Recorder, cfg: &Cfg) {
         });
     }
     // two-byte UTF-8 sequences (U+0080..U+07FF) at every position of a 4-char block and in tails
-    let step = if cfg.thorough { 1 } else { 7 };
     let mut cp = 0x80u32;
     while cp < 0x800 {
         let ch = char::from_u32(cp).unwrap();
         let mut buf = [0u8; 4];
         let e = ch.encode_utf8(&mut buf).as_bytes().to_vec();
+        // quick: every 7th code point, and every one whose bytes become alphabet characters when their top bit is dropped
+        let alias = e.iter().all(|b| B64.contains(&(b & 0x7f)));
+        if !(cfg.thorough || alias || cp % 7 == 2) {
+            cp += 1;
+            continue;
+        }
         for pos in 0..=2usize {
             for total in [2usize, 3, 4, 6] {
                 if pos + 2 > total {
@@ -108,7 +113,7 @@ pub fn run(rec: &mut Recorder, cfg: &Cfg) {
                 emit_dec(rec, "v1", &s);
             }
         }
-        cp += step;
+        cp += 1;
     }
     // random longer strings: canonical encodings, and the same with one mutation
     let nlong = if cfg.thorough { 3000 } else { 400 };
